@@ -70,6 +70,12 @@ for _p, _l in {"C01": _ENCP, "C02": ["decode_hex_escape_agrees"], "C03": ["escap
                "C19": ["escape_scalar_string_agrees"], "C20": ["get_jentry_by_index_overflow"]}.items():
     TIE[_p] = TIE[_p] + [x for x in _l if x not in TIE[_p]]
 
+# phase 3 (tools/rs2lean3.py, Proofs/TranslatedAgreeC*.lean): the recursive codec (Decoder of de.rs, Encoder of ser.rs)
+_DEC = ["dec_agrees", "parse_jsonb_agrees", "parse_jsonb_ne_fuel", "decoder_decode_agrees", "from_slice_agrees", "from_slice_whole", "decode_jentries_agrees"]
+_ENC = ["enc_value_agrees", "encode_value_agrees", "encode_array_agrees", "encode_object_agrees", "encode_scalar_agrees", "encode_agrees", "write_to_vec_agrees", "to_vec_agrees"]
+for _p, _l in {"C01": _DEC[:3] + _ENC, "C10": _DEC, "C11": ["from_slice_whole"], "C17": ["write_to_vec_agrees", "encode_agrees", "enc_value_agrees"], "C07": ["to_vec_agrees", "parse_jsonb_agrees"]}.items():
+    TIE[_p] = TIE[_p] + [x for x in _l if x not in TIE[_p]]
+
 # agreement theorem -> the source declarations (keys of the translator's status) it is about
 TIE_SOURCES = {
     "decode_jentry_agrees": ["src/jentry.rs::struct JEntry", "src/jentry.rs::JEntry::decode_jentry"],
@@ -108,6 +114,21 @@ TIE_SOURCES.update({
     "object_key_iterator_next_agrees": ["src/iterator.rs::struct ObjectKeyIterator", "src/iterator.rs::ObjectKeyIterator::next"],
     "iteate_object_keys_drain": ["src/iterator.rs::struct ObjectKeyIterator", "src/iterator.rs::iteate_object_keys", "src/iterator.rs::ObjectKeyIterator::next"],
 })
+_DECSRC = ["src/value.rs::enum Value", "src/de.rs::struct Decoder", "src/de.rs::Decoder::decode_jentries", "src/de.rs::Decoder::decode_jsonb", "src/de.rs::Decoder::decode_scalar",
+           "src/de.rs::Decoder::decode_array", "src/de.rs::Decoder::decode_object", "src/number.rs::Number::decode"]
+_ENCSRC = ["src/value.rs::enum Value", "src/ser.rs::struct Encoder", "src/ser.rs::Encoder::encode_value", "src/ser.rs::Encoder::encode_array", "src/ser.rs::Encoder::encode_object",
+           "src/ser.rs::Encoder::reserve_jentries", "src/ser.rs::Encoder::replace_jentry", "src/number.rs::Number::compact_encode"]
+TIE_SOURCES.update({
+    "dec_agrees": _DECSRC, "decode_jentries_agrees": ["src/de.rs::struct Decoder", "src/de.rs::Decoder::decode_jentries"],
+    "parse_jsonb_agrees": _DECSRC + ["src/de.rs::Decoder::new", "src/de.rs::Decoder::decode", "src/de.rs::parse_jsonb"], "parse_jsonb_ne_fuel": [],
+    "decoder_decode_agrees": _DECSRC + ["src/de.rs::Decoder::decode"],
+    "from_slice_agrees": _DECSRC + ["src/de.rs::Decoder::new", "src/de.rs::Decoder::decode", "src/de.rs::from_slice"],
+    "from_slice_whole": _DECSRC + ["src/de.rs::Decoder::new", "src/de.rs::Decoder::decode", "src/de.rs::from_slice"],
+    "enc_value_agrees": _ENCSRC, "encode_value_agrees": _ENCSRC, "encode_array_agrees": _ENCSRC, "encode_object_agrees": _ENCSRC,
+    "encode_scalar_agrees": _ENCSRC + ["src/ser.rs::Encoder::encode_scalar"], "encode_agrees": _ENCSRC + ["src/ser.rs::Encoder::encode_scalar", "src/ser.rs::Encoder::encode"],
+    "write_to_vec_agrees": _ENCSRC + ["src/ser.rs::Encoder::encode_scalar", "src/ser.rs::Encoder::encode", "src/ser.rs::Encoder::new", "src/value.rs::Value::write_to_vec"],
+    "to_vec_agrees": _ENCSRC + ["src/ser.rs::Encoder::encode_scalar", "src/ser.rs::Encoder::encode", "src/ser.rs::Encoder::new", "src/value.rs::Value::write_to_vec", "src/value.rs::Value::to_vec"],
+})
 for _k in ("null", "true", "false", "string", "number", "container"):
     TIE_SOURCES["make_%s_jentry_agrees" % _k] = ["src/jentry.rs::struct JEntry", "src/jentry.rs::JEntry::make_%s_jentry" % _k]
     TIE_SOURCES["%s_word_agrees" % _k] = ["src/jentry.rs::struct JEntry", "src/jentry.rs::JEntry::make_%s_jentry" % _k, "src/jentry.rs::JEntry::encoded"]
@@ -124,7 +145,7 @@ EXTRA_THEOREMS = {
 TRUSTED_BASE = [
     "Lean 4.33.0 kernel (thorough tier re-checks the theorem module with leanchecker)",
     "axioms: only propext, Classical.choice, Quot.sound (audited per theorem by #print axioms on every run); no native_decide, no bv_decide, no user axioms, no sorry",
-    "tools/rs2lean.py + tools/rs2lean2.py (translators of 42 functions of /repo/src to Lean: number codec and order, entry words, index arithmetic, byte walkers, iterators, entry patching, escaper; regenerated every run) with lean/JsonbModel/RustPrelude*.lean (hand-written meaning of the Rust primitives they emit: integer casts, checked arithmetic, byte conversions, slices, loops as bounded folds, OrderedFloat); the agreement theorems tie their output to the model",
+    "tools/rs2lean.py + rs2lean2.py + rs2lean3.py (translators of 63 functions of /repo/src to Lean: number codec and order, entry words, index arithmetic, byte walkers, iterators, entry patching, escaper, and the recursive Decoder of de.rs and Encoder of ser.rs; regenerated every run) with lean/JsonbModel/RustPrelude*.lean (hand-written meaning of the Rust primitives they emit: integer casts, checked arithmetic, byte conversions, slices, loops as bounded folds, recursion on explicit fuel, BTreeMap as a sorted list, from_utf8 as validUtf8, OrderedFloat); the agreement theorems tie their output to the model",
     "tools/gen_constants.py (translator constants.rs -> Lean) and the line-protocol glue (lean/JsonbModel/Driver/*.lean, harness/src/wire.rs)",
     "the correspondence check itself: the hand-written implementation model is tied to /repo by sampled differential runs (request stream of this run, see coverage)",
     "modelled, not verified: Rust slice/Vec/integer-cast semantics, BTreeMap ordering, byteorder; the spec layer is my reading of the README and the property text",
